@@ -103,7 +103,11 @@ def pool_get(ex, path, args):
 
 
 def pool_put(ex, path, args):
-    path.log.append(("pool_put", args[0].obj, args[0].path))
+    """Put hands the item to the pool: from here on it is package-level state that any later Get (in any goroutine) may
+    receive and overwrite; the effects checks treat references into it as retained by package state"""
+    v = args[1] if len(args) > 1 else None
+    tgt = v.val if isinstance(v, Iface) else v
+    path.log.append(("pool_put", args[0].obj, args[0].path, tgt.obj if isinstance(tgt, Ptr) else None))
     return None
 
 
